@@ -1,6 +1,6 @@
 (* Props_C09.v — property C09 (validation is sound): what acceptance by the front-end model
    implies, rule by rule; witnesses for the rules that are not enforced (known findings). *)
-Require Import Base Syntax Front Plan.
+Require Import Base Syntax Front Plan gen.CounterFacts.
 Require Import spec.Spec_C09 spec.Spec_Numbering proofs.C07Proofs proofs.C09Proofs proofs.LayoutProofs Layout.
 Open Scope N_scope.
 
@@ -63,14 +63,28 @@ Proof.
 Qed.
 Print Assumptions C09_full_refuted.
 
-Theorem C09_witness_two_objarr :
-  exists ps, check_params ps false false false false = Ok tt /\ rule_no_two_objarr (map abs_param ps) = false.
-Proof. eexists. exact two_objarr_accepted. Qed.
-Print Assumptions C09_witness_two_objarr.
-Theorem C09_witness_in_array_small_objstruct :
-  exists ps, check_params ps false false false false = Ok tt /\ rule_no_array_of_objstruct (map abs_param ps) = false.
-Proof. eexists. exact in_array_small_objstruct_accepted. Qed.
-Print Assumptions C09_witness_in_array_small_objstruct.
+(* the pinned upstream verifier accepted a second object array of one direction and an input
+   array of a small struct that contains an object (F7, F8) ... *)
+Theorem C09_witness_two_objarr_upstream :
+  exists ps, check_params_gen false false ps false false false false = Ok tt /\ rule_no_two_objarr (map abs_param ps) = false.
+Proof. eexists. exact two_objarr_accepted_upstream. Qed.
+Print Assumptions C09_witness_two_objarr_upstream.
+Theorem C09_witness_in_array_small_objstruct_upstream :
+  exists ps, check_params_gen false false ps false false false false = Ok tt /\ rule_no_array_of_objstruct (map abs_param ps) = false.
+Proof. eexists. exact in_array_small_objstruct_accepted_upstream. Qed.
+Print Assumptions C09_witness_in_array_small_objstruct_upstream.
+(* ... the repaired verifier (regenerated facts) enforces all five parameter-list rules of the
+   specification, for every method reachable from a main-file interface *)
+Theorem C09_param_rules : verifier_rejects_second_objarr = true -> verifier_small_objstruct_in_array = true ->
+  forall md files mir top, front Cli md files = Ok mir -> In (MTIface top) mir ->
+  forall f, In f (chain_funcs top) -> forallb (fun b => b) (params_rules (map abs_param (mf_params f))) = true.
+Proof. intros F1 F2 md files mir top. now apply front_cli_param_rules. Qed.
+Print Assumptions C09_param_rules.
+(* the tree being checked *)
+Theorem C09_param_rules_current : forall md files mir top, front Cli md files = Ok mir -> In (MTIface top) mir ->
+  forall f, In f (chain_funcs top) -> forallb (fun b => b) (params_rules (map abs_param (mf_params f))) = true.
+Proof. exact (C09_param_rules eq_refl eq_refl). Qed.
+Print Assumptions C09_param_rules_current.
 (* the pinned upstream library entry point skipped the interface verifier ... *)
 Theorem C09_witness_lib_entry_upstream :
   exists files, is_ok (front_gen false Lib Debug files) = true /\ is_ok (front_gen false Cli Debug files) = false.
